@@ -13,7 +13,7 @@ Three parts, each a literal transcription of the code named beside it:
 2. *Directory traversal.*  `System.addPackage` = `for path in sorted(package_path.iterdir())`.
    `listing` is what the file system returned, in ITS order.
 3. *Output directory.*  A map file ↦ bytes | symlink, with `open(..., 'wb')` (create / truncate,
-   follows a symlink), `unlink` guarded by `except FileNotFoundError`, `symlink_to` (raises
+   follows symlinks), `unlink` guarded by `except FileNotFoundError`, `symlink_to` (raises
    `FileExistsError`); `prepOutputDirectory` removes nothing.
 
 Names are lists of code points (`Name`), so that `sorted` is Python's `str` order.
@@ -227,17 +227,25 @@ inductive Op where
 
 inductive Err where
   | fileExists     -- symlink_to over an existing name
-  | linkChain      -- open() through a link whose target is a link again (ELOOP for a self loop; not modelled deeper)
+  | eloop          -- open() met more symbolic links than the system follows (a link cycle)
   deriving DecidableEq, Repr
+
+/-- the name `open(n)` ends at: links are followed (Linux: at most 40); `none` = ELOOP.
+A dangling link resolves to its (absent) target, which `open(..., 'wb')` then creates. -/
+def resolve (d : Dir) : Nat → Name → Option Name
+  | 0, _ => none
+  | fuel + 1, n =>
+    match d.get n with
+    | some (.link t) => resolve d fuel t
+    | _ => some n
+
+def maxLinks : Nat := 40
 
 def step (d : Dir) : Op → Except Err Dir
   | .write n c =>
-    match d.get n with
-    | some (.link t) =>
-      match d.get t with
-      | some (.link _) => .error .linkChain
-      | _ => .ok (d.set t (.file c))
-    | _ => .ok (d.set n (.file c))
+    match resolve d (maxLinks + 1) n with
+    | some m => .ok (d.set m (.file c))
+    | none => .error .eloop
   | .unlinkOk n => .ok (d.remove n)
   | .symlink n t => if (d.get n).isSome then .error .fileExists else .ok (d.set n (.link t))
 
